@@ -20,6 +20,7 @@ def gen_cases(tier, seed, ctx):
     nexh = 5 if tier == 'quick' else 24
     picked = []
     seen = set()
+    pinned_types = set()
     for name, z in files:                       # spread over hash types / flags / detached
         key = (z.hash_type, z.flags, z.detached, z.comp_type)
         if key in seen and len(picked) < nexh and tier == 'quick': continue
@@ -47,6 +48,20 @@ def gen_cases(tier, seed, ctx):
             for pos in range(hl):
                 for v in (b[pos] ^ 1, b[pos] ^ 0x80):
                     cases.append(E.Case('o%d' % len(cases), 'OPENRETRY %s %d %02x' % (p, pos, v), dict(kind='sub-retry')))
+        # the same substitutions opened the way a downloader does: the expected header checksum (and type, length) of the ORIGINAL given
+        # beforehand (ZCK_VAL_HEADER_*), optionally zck_validate_lead first: a pin is an extra check, never a replacement for one
+        if z.hash_type not in pinned_types or tier == 'thorough':       # one file per header checksum type (digest lengths 16..64: where it lies relative to the first read differs)
+            pinned_types.add(z.hash_type)
+            pr = Z.parse(b)
+            good = pr['header_digest'].hex().encode().hex()
+            total = pr['lead'] + pr['header_len']
+            for pos in range(hl):
+                for v in (b[pos] ^ 1, b[pos] ^ 0x80):
+                    m = bytearray(b); m[pos] = v
+                    q = os.path.join(ctx['work'], '%s.pin%d_%02x.zck' % (name, pos, v))
+                    open(q, 'wb').write(bytes(m))
+                    cases.append(E.Case('o%d' % len(cases), 'OPEN %s %d %s %s %s %d' % (
+                        q, pr['hash_type'], good, rnd.choice(['-', str(total)]), rnd.choice(['td', 'dt']), rnd.choice([0, 1])), dict(kind='sub-pinned')))
         # first body byte (outside the header): must NOT affect open
         if len(b) > hl:
             cases.append(E.Case('o%d' % len(cases), 'OPENM %s %d %02x' % (p, hl, b[hl] ^ 0xff), dict(kind='body-byte')))
@@ -71,7 +86,7 @@ def nontrivial(r):
     return r['meta'].get('kind') != 'valid'
 
 def run(tier, seed, replay=None):
-    rule = ("OPENRETRY = the same through zck_read_lead / zck_read_header with every failing step retried after zck_clear_error on the same "
+    rule = ("OPEN with pins = the same substitutions opened through the advanced API with the ORIGINAL header checksum / type / length given as expected values (with and without zck_validate_lead); OPENRETRY = the same through zck_read_lead / zck_read_header with every failing step retried after zck_clear_error on the same "
             "context (2 values per position); OPENM = zck_init_read on a valid file with ONE header byte substituted: for the sampled valid files (all hash types, flags, "
             "dict, detached) every position in [0, header length) x all 255 other values (exhaustive; 5 files quick, 24 thorough; the "
             "remaining files x 6 values per position), the first body byte as a control, and insertions/deletions with the size field "
